@@ -120,6 +120,19 @@ def run(ch, ctx):
             ctx.notes['config'] = cfg
         raise
     st = world.state
+    if world.game is not None and v['phh'] is not None:
+        # the hand written as a hand history carries the variant's code, and the game rebuilt from it is this variant
+        hh = pokerkit.HandHistory.from_game_state(world.game, st)
+        cls = getattr(pokerkit, v['cls'])
+        if hh.variant != v['phh']:
+            raise Violation('C11.static', f'{v["cls"]}: a hand saved as a hand history gets the variant code {hh.variant!r}, '
+                            f'documented {v["phh"]!r}', variant=cfg['variant'])
+        g2 = hh.create_game()
+        if type(g2) is not cls or frozenset(repr(c) for c in g2.deck) != v['deck'] \
+                or [h.__name__ for h in g2.hand_types] != v['hands']:
+            raise Violation('C11.static', f'{v["cls"]}: the game rebuilt from its saved hand history is {type(g2).__name__} with '
+                            f'{len(g2.deck)} cards and hand types {[h.__name__ for h in g2.hand_types]}', variant=cfg['variant'])
+        ctx.count('saved_and_rebuilt')
     seq = opseq(st)
     ctx.count('variant_' + cfg['variant'])
     ctx.count('cap_reached', bet.refusals.get('cap', 0) > 0)
